@@ -123,7 +123,7 @@ def gen_cfg(rnd, explainer, exact, allow_discontinuous=False):
         "imputer": rnd.choice(["joint", "joint", "product", "default", "custom", "library-default", "background"]),
         # 'background': a MarginalImputer bound to a data set the USER maintains, not to the explainer's own storage
         "frozen_first": rnd.choice([0, 0, 0, 1, 2, 6]),   # first calls made with update_storage=False (imputers that do not need the storage)
-        "model": rnd.choice(["scalar", "scalar", "multi", "grow", "ignore", "constant", "linear", "positional", "positional", "antisym"]),
+        "model": rnd.choice(["scalar", "scalar", "multi", "grow", "ignore", "constant", "linear", "positional", "positional", "antisym", "coarse"]),
         "extras": rnd.choice([0, 0, 1, 2]),          # features present in the data but not explained (the model reads them)
         "warm_start": rnd.choice([0, 0, 0, 2]),      # observations put into the storage via update_storage() before the first call
         "loss": rnd.choice(["hash", "hash", "hash", "sq", "zero"]) if exact else rnd.choice(["sq", "abs", "sq", "zero"]),
@@ -138,6 +138,7 @@ def gen_cfg(rnd, explainer, exact, allow_discontinuous=False):
         "label_keys": rnd.choice(["int", "int", "str"]),                                     # keys of multi-label outputs
         "x_type": rnd.choice(["dict", "dict", "OrderedDict", "subclass", "Counter"]),                   # observations as dict subclasses
         "memo_model": rnd.random() < 0.25,
+        "hoisted": rnd.random() < 0.3,               # the caller keeps `f = explainer.explain_one` taken BEFORE the first call and uses it throughout
         "manual_updates": rnd.random() < 0.2,        # the user also feeds the storage through update_storage() between explanations                                                   # model hands out cached dict objects
     }
     # a 0-1 loss returning Python bools is discontinuous: usable where no float reference is compared (C01's self-consistency
@@ -252,9 +253,10 @@ class Scenario:
         self.extras = [f"extra{j}" for j in range(cfg.get("extras", 0))]
         self.stream = UniqueStream(self.names, seed=seed, exact=cfg["exact"], extras=self.extras,
                                    shuffle_keys=cfg.get("shuffle_keys", False), str_values=cfg.get("str_values", False),
-                                   ykind=cfg.get("ykind", "int"))
+                                   ykind=cfg.get("ykind", "int") if cfg["loss"] in ("hash", "zero", "zero-one") else "int")
         self.t = 0
         self.max_loss = 1.0
+        self._explain = self.e.explain_one if cfg.get("hoisted") else None
         for _ in range(cfg.get("warm_start", 0)):
             xw, yw = self.stream.next()
             self.e.update_storage(xw, yw)
@@ -299,10 +301,11 @@ class Scenario:
             else:
                 self.e.update_storage(x_i=xm, y_i=ym)
         self.clock.reset()
+        fn = self._explain if getattr(self, "_explain", None) is not None else self.e.explain_one
         if self.cfg.get("keyword_call"):
-            ret = self.e.explain_one(x_i=x, y_i=y, **kw)
+            ret = fn(x_i=x, y_i=y, **kw)
         else:
-            ret = self.e.explain_one(x, y, **kw)
+            ret = fn(x, y, **kw)
         self.t += 1
         return x, y, ret, list(self.clock.log)
 
